@@ -125,12 +125,9 @@ Example C11_reach_nonempty :
   exists p, reach (init_parser (seq_tokens_flat 1) false) p [EStreamStart; EDocumentStart false; ESequenceStart 0%N None]
             /\ length (p_states p) = 1.
 Proof.
-  eexists. split.
-  - eapply (reach_step _ _ [EStreamStart; EDocumentStart false]); [| |vm_compute; reflexivity].
-    + eapply (reach_step _ _ [EStreamStart]); [| |vm_compute; reflexivity].
-      * eapply (reach_step _ _ []); [apply reach_init| |vm_compute; reflexivity]. discriminate.
-      * discriminate.
-    + discriminate.
+  destruct (run_steps 3 (init_parser (seq_tokens_flat 1) false) []) as [[p evs]|] eqn:E; vm_compute in E; [|discriminate].
+  inversion E; subst. eexists. split.
+  - eapply (run_steps_reach _ 3); [apply reach_init|]. vm_compute. reflexivity.
   - reflexivity.
 Qed.
 (* the push loader model does succeed on well-formed events, and does fail on others *)
